@@ -113,7 +113,7 @@ impl Driver {
             desc["pool_aggregates_consistent"] = json!(crate::pred::aggregates_consistent(&d));
             desc["c11_f3_situation_seen"] = json!(self.f3_seen);
             if real_size as u64 > consensus.max_block_bytes() || cycles > consensus.max_block_cycles() {
-                if let Some(sig) = self.known_c11_signature() {
+                if let Some(sig) = self.known_c11_signature().or_else(|| self.f3_footprint(&block)) {
                     desc["known_signature"] = json!(sig);
                 }
             }
@@ -121,13 +121,13 @@ impl Driver {
         };
         // (iii) limits
         if real_size as u64 > consensus.max_block_bytes() {
-            let sig = self.known_c11_signature();
+            let sig = self.known_c11_signature().or_else(|| self.f3_footprint(&block));
             self.violation("C13 template larger than max_block_bytes", desc.clone(), sig);
         } else if real_size as u64 + 400 > consensus.max_block_bytes() {
             self.w.stat("template_within_400_bytes_of_limit");
         }
         if cycles > consensus.max_block_cycles() {
-            let sig = self.known_c11_signature();
+            let sig = self.known_c11_signature().or_else(|| self.f3_footprint(&block));
             self.violation("C13 template cycles above max_block_cycles", desc.clone(), sig);
         } else if cycles + 1_000 > consensus.max_block_cycles() {
             self.w.stat("template_within_1000_cycles_of_limit");
@@ -221,6 +221,21 @@ impl Driver {
         } else {
             None
         }
+    }
+
+    /// A template taken while the pool is still working through chain notifications is not described by any dump
+    /// the harness can take afterwards.  F3's footprint on the template itself: it packs a transaction the pool
+    /// re-added from a detached block (readd_detached_tx -> add_entry) together with a pooled child of it, the
+    /// package whose ancestors_size / ancestors_cycles add_entry left without the parent's share.
+    fn f3_footprint(&self, block: &BlockView) -> Option<&'static str> {
+        let txs = block.transactions();
+        for a in txs.iter().skip(1) {
+            if !self.w.readded.contains(&a.hash()) { continue; }
+            if txs.iter().skip(1).any(|t| t.input_pts_iter().chain(t.cell_deps_iter().map(|d| d.out_point())).any(|op| op.tx_hash() == a.hash())) {
+                return Some("add_entry of a tx that already has pooled children");
+            }
+        }
+        None
     }
 
     /// the raw TxSelector selection against the dump taken under the same lock
@@ -318,6 +333,7 @@ impl Driver {
         }
         if !crate::pred::aggregates_consistent(&dump) {
             self.aggs_bad_at = Some(self.w.jops.len());
+            crate::world::note_c11_situation();
         }
         self.last_dump = Some(dump);
         self.w.racing_since_sync = 0;
@@ -335,6 +351,7 @@ impl Driver {
                     && b.entries.iter().any(|c| c.inputs.iter().chain(c.related_deps.iter()).any(|op| op.tx_hash() == e.tx_hash))
                 {
                     self.f10_seen = true;
+                    crate::world::note_c11_situation();
                     self.w.stat("c11_F10_situation_expired_inner_node");
                 }
             }
@@ -345,6 +362,7 @@ impl Driver {
                 if attached.contains(&tx.hash()) { continue; }
                 if b.entries.iter().any(|e| e.inputs.iter().chain(e.related_deps.iter()).any(|op| op.tx_hash() == tx.hash())) {
                     self.f3_seen = true;
+                    crate::world::note_c11_situation();
                     self.w.stat("c11_F3_situation_readd_parent_of_pooled");
                 }
             }
@@ -355,6 +373,7 @@ impl Driver {
         let (d, _) = self.w.node.pool().verif_dump();
         if !crate::pred::aggregates_consistent(&d) {
             self.aggs_bad_at = Some(self.w.jops.len());
+            crate::world::note_c11_situation();
         }
         self.last_dump = Some(d);
     }
@@ -802,7 +821,7 @@ impl Driver {
             if self.fatal || self.w.viol.len() > 200 {
                 break;
             }
-            if crate::world::service_panic_signature().is_some() {
+            if crate::world::SERVICE_PANICS.lock().map(|v| !v.is_empty()).unwrap_or(false) {
                 // the pool no longer follows the chain: nothing further to learn from this history
                 self.w.stat("histories_ended_by_a_pool_service_panic");
                 break;
